@@ -179,6 +179,10 @@ inductive ApiOp
   | rem (li : Nat) (n : Str)
   | ren (li : Nat) (o n : Str)
   | entry (li : Nat) (n : Str) (seed : Nat)
+  /-- the glyphs stored under `a` and `b` exchanged through `get_glyph_mut` (key and own name then differ) -/
+  | swap (li : Nat) (a b : Str)
+  /-- the slot of `b` overwritten with a clone of the glyph stored under `a` -/
+  | copy (li : Nat) (a b : Str)
 
 def parseOp (t : String) : Option ApiOp :=
   match t.splitOn "." with
@@ -190,11 +194,18 @@ def parseOp (t : String) : Option ApiOp :=
     | some l, some o', some n' => some (.ren l o' n') | _, _, _ => none
   | ["eo", li, n, sd] => match li.toNat?, unhexStr n, sd.toNat? with
     | some l, some n', some s' => some (.entry l n' s') | _, _, _ => none
+  | ["sw", li, a, b] => match li.toNat?, unhexStr a, unhexStr b with
+    | some l, some a', some b' => some (.swap l a' b') | _, _, _ => none
+  | ["cp", li, a, b] => match li.toNat?, unhexStr a, unhexStr b with
+    | some l, some a', some b' => some (.copy l a' b') | _, _, _ => none
   | _ => none
 
 structure LState where
   glyphs : List (Str × View)
   contents : List (Str × Option Str)
+
+def LState.setSlot (L : LState) (k : Str) (v : View) : LState :=
+  { L with glyphs := L.glyphs.map (fun e => if e.1 = k then (k, v) else e) }
 
 def LState.insert (L : LState) (v : View) : LState :=
   { glyphs := L.glyphs.filter (·.1 ≠ v.name) ++ [(v.name, v)],
@@ -213,9 +224,17 @@ def LState.apply (L : LState) : ApiOp → LState
     | some g => (L.remove o).insert { g.2 with name := n }
   | .entry _ n seed =>
     if L.glyphs.any (·.1 = n) then L else { L with glyphs := L.glyphs ++ [(n, ⟨n, [], seed⟩)] }
+  | .swap _ a b =>
+    match L.glyphs.find? (·.1 = a), L.glyphs.find? (·.1 = b) with
+    | some x, some y => (L.setSlot a y.2).setSlot b x.2
+    | _, _ => L
+  | .copy _ a b =>
+    match L.glyphs.find? (·.1 = a) with
+    | some x => L.setSlot b x.2
+    | none => L
 
 def ApiOp.layer : ApiOp → Nat
-  | .ins l _ _ | .rem l _ | .ren l _ _ | .entry l _ _ => l
+  | .ins l _ _ | .rem l _ | .ren l _ _ | .entry l _ _ | .swap l _ _ | .copy l _ _ => l
 
 def applyOps (ls : List LState) (ops : List ApiOp) : List LState :=
   ops.foldl (fun ls op => ls.zipIdx.map (fun p => if p.2 = op.layer then p.1.apply op else p.1)) ls
@@ -228,13 +247,15 @@ def stateMatchesDump (L : LState) (o : LayerObs) : Bool :=
   let gs := sortViews L.glyphs
   o.len = gs.length && o.glyphs.length = gs.length &&
   (gs.zip o.glyphs).all (fun p => p.2.name = p.1.2.name && p.2.comps = p.1.2.comps &&
-    p.2.body = toString p.1.2.body && p.2.found && p.1.1 = p.1.2.name)
+    p.2.body = toString p.1.2.body && p.2.found == decide (p.1.1 = p.1.2.name))
 
 /-- saved files after the history: one per `contents` entry; known file names hold their glyph, the
     others hold exactly the glyphs whose file name `insert_glyph` chose -/
 def stateMatchesSave (L : LState) (o : SaveObs) : Bool :=
-  let known := L.contents.filterMap (fun e => e.2.map (fun f => (f, e.1)))
-  let unknownKeys := (L.contents.filter (·.2.isNone)).map (·.1)
+  -- the file of a `contents` key holds the glyph STORED under that key, under the glyph's own name
+  let nameAt : Str → Str := fun k => ((L.glyphs.find? (·.1 = k)).map (·.2.name)).getD k
+  let known := L.contents.filterMap (fun e => e.2.map (fun f => (f, nameAt e.1)))
+  let unknownKeys := (L.contents.filter (·.2.isNone)).map (fun e => nameAt e.1)
   let rest := o.files.filter (fun p => !known.any (·.1 = p.1))
   o.files.length = L.contents.length &&
   known.all (fun k => o.files.any (fun p => p.1 = k.1 && p.2 = some k.2)) &&
